@@ -749,15 +749,23 @@ class LexerTokenStream(TokenStream):
         # retrieve any comments in the stream right before
         # the first non-discard element
         keep_going = True
+
+        # True when the last comment did not include the newline that ends its
+        # line (trailing blanks or a CR after '*/'): the next single newline
+        # then only ends that line, it is not a blank line
+        open_line = False
         while True:
             while tokbuf:
                 tok = tokbuf.popleft()
                 if tok.type == "NEWLINE":
-                    comments.clear()
+                    if not (open_line and tok.value == "\n"):
+                        comments.clear()
+                    open_line = False
                 elif tok.type == "WHITESPACE":
                     pass
                 elif tok.type in ("COMMENT_SINGLELINE", "COMMENT_MULTILINE"):
                     comments.append(tok)
+                    open_line = not tok.value.endswith("\n")
                 else:
                     tokbuf.appendleft(tok)
                     keep_going = False
